@@ -41,6 +41,9 @@ func extraJobs(tier string) []job {
 	for i := 0; i < 2; i++ {
 		j = append(j, job{"interrupt", i, 0, 0})
 	}
+	for i := 0; i < 4; i++ {
+		j = append(j, job{"repropose", i, 0, 0})
+	}
 	return j
 }
 
@@ -60,6 +63,8 @@ func runExtra(seed int64, j job) ScenarioOut {
 		return scenarioRevoke(seed, j.idx)
 	case "interrupt":
 		return scenarioInterrupt(seed, j.idx)
+	case "repropose":
+		return scenarioRepropose(seed, j.idx)
 	}
 	return ScenarioOut{Name: j.kind, Stats: map[string]int{}}
 }
@@ -1142,4 +1147,55 @@ func scenarioInterrupt(seed int64, idx int) ScenarioOut {
 	n.stats[fmt.Sprintf("interrupt.second_truncation_err=%v", err2 != nil)]++
 	cmp(o0, observe(), "after the truncation that followed an interrupted one")
 	return s.out("interrupt", true)
+}
+
+// ---------------------------------------------------------------- a dropped tip frees its transaction (C03): an overdrawing transfer is sealed
+// in a tentative tip, a PEER's vertex names that tip as its parent (the tip is examined in the gossip path, found uncovered and dropped), and
+// the same transaction is then proposed again: nothing holds it any more, so "already sealed" is no reason to refuse it
+func scenarioRepropose(seed int64, idx int) ScenarioOut {
+	w := newWorld(seed*5200013+int64(idx), 7)
+	s := &sim{w: w, bal: map[string]int64{}, pending: map[int][]*accountant.Vertex{}, clock: time.Now().Add(-time.Hour)}
+	s.genesisSigner, s.recvRich, s.users = w.wallets[0], w.wallets[1], w.wallets[1:5]
+	n := newNode(w, fmt.Sprintf("repropose%d", idx), w.wallets[0])
+	defer n.close()
+	s.nodes = []*Node{n}
+	gv, _ := n.genesis(s.recvRich.Address(), spice.Melange{Currency: 500})
+	if gv == nil {
+		return s.out("repropose", false)
+	}
+	for k := 0; k < 1+idx%3; k++ {
+		t := craftTrx(s.recvRich, s.users[1].Address(), fmt.Sprintf("pre-%d", k), nil, spice.Melange{Currency: 5}, s.now())
+		n.create(&t, -1)
+	}
+	bad := craftTrx(s.users[2], s.users[3].Address(), "overdraw", nil, spice.Melange{Currency: 40 + uint64(idx)}, s.now())
+	vb, _ := n.create(&bad, -1)
+	if vb == nil {
+		return s.out("repropose", true)
+	}
+	peer := w.wallets[5]
+	pt := craftTrx(s.recvRich, s.users[1].Address(), "peer", nil, spice.Melange{Currency: 1}, s.now())
+	pv, err := accountant.NewVertex(pt, vb.Hash, vb.Hash, vb.Weight+1, peer)
+	if err != nil {
+		return s.out("repropose", true)
+	}
+	w.remember(&pv)
+	n.add(&pv, -1)
+	sn := n.ab.VerifSnapshot()
+	dropped := true
+	for i := range sn.Vertices {
+		if sn.Vertices[i].Hash == vb.Hash {
+			dropped = false
+		}
+	}
+	if dropped {
+		n.stats["repropose.tip_dropped"]++
+	}
+	n.create(&bad, -1)
+	for k := 0; k < 2; k++ {
+		t := craftTrx(s.recvRich, s.users[2].Address(), fmt.Sprintf("after-%d", k), nil, spice.Melange{Currency: 1}, s.now())
+		n.create(&t, -1)
+	}
+	o := s.out("repropose", true)
+	o.NonTriv = true
+	return o
 }
